@@ -324,6 +324,21 @@ class C11(Prop):
                 s = "".join(tup)
                 if within_bound(s):
                     out.append(Case("query " + C.hexs(s), f"short-{k}", s))
+        # unit powers compounded by repeated `^k` (two-digit k): the stored i32 power runs through
+        # every magnitude up to and beyond the i32 range within a handful of tokens
+        ks = ["2", "3", "4", "8", "16", "32", "64", "99", "-2", "-1", "-64"]
+        # (magnitude one throughout: compounding the exponents of a magnitude other than one
+        # asks for a number with millions of digits, which is cost, not termination)
+        for base in ("1m", "1m^-1", "1m^2", "1m^-2", "1 km^3", "1s^-2", "1m^-2*s"):
+            for depth in range(1, 7):
+                for _ in range(12 if tier == "quick" else 200):
+                    t = base + "".join(" ^" + rng.choice(ks) for _ in range(depth))
+                    if within_bound(t):
+                        out.append(Case("query " + C.hexs(t), "power-chain", t))
+            for k in ("2", "4", "8", "16", "32", "64"):
+                for depth in range(1, 8):
+                    t = base + (" ^" + k) * depth
+                    out.append(Case("query " + C.hexs(t), "power-chain", t))
         for w in ("C°", "t°", "a°", "to°", "°to", "t°o", "m°", "K°"):
             for pre in ("", "1 ", "20 ", "1m to ", "(", "1 + "):
                 for post in ("", " ", " b", ")", " * 3", "^2"):
